@@ -1,13 +1,16 @@
 """Property id -> check function; replay of a recorded violation."""
 import json
 
-from . import eprops, framework as fw, record, c18, c17
+from . import eprops, framework as fw, record, c18, c17, optim
 
 CHECKS = {}
 for _p in ("C01", "C02", "C03", "C04", "C08", "C09", "C11", "C12"):
     CHECKS[_p] = eprops.check
 CHECKS["C18"] = c18.check
 CHECKS["C17"] = c17.check
+CHECKS["C05"] = optim.check_c05
+CHECKS["C06"] = optim.check_c06
+CHECKS["C07"] = optim.check_c07
 
 
 def replay(ctx, path):
